@@ -3,19 +3,6 @@
 From PV Require Import Lib.Bytes Model.FsProto Spec.CrashSpec Proofs.FsProto.
 Open Scope N_scope.
 
-(* ---------- the four steps of a save as equations on `step` ---------- *)
-
-Lemma step_open_eq s f :
-  step s (Open 0 (tmp_name f) 438) = (exec [Open 0 (tmp_name f) 438] s, None).
-Proof. reflexivity. Qed.
-
-Lemma step_write_eq s f d :
-  step (exec [Open 0 (tmp_name f) 438] s) (Write 0 d) = (st_written s f d, None).
-Proof.
-  rewrite exec_open. cbn [step st_fds st_fs st_umask].
-  rewrite fd_lookup_set_eq, lookup_set_eq. reflexivity.
-Qed.
-
 (* ---------- does the plan fire at the next system call ---------- *)
 
 Definition fires (w : world) : option fault :=
@@ -53,96 +40,251 @@ Proof.
   destruct (Nat.eqb k (w_count w)) eqn:E; [discriminate|]. apply Nat.eqb_neq in E. exact E.
 Qed.
 
-(* ---------- what one action does to the world ---------- *)
+Lemma sys_ok o w :
+  fires w = None -> snd (step (w_st w) o) = None ->
+  sys o w = (mkworld (fst (step (w_st w) o)) (S (w_count w)) (w_plan w)
+                     (w_trace w ++ [(o, None)]) (w_stderr w) (w_saved w), None).
+Proof. intros F R. rewrite sys_unfold, F, R. reflexivity. Qed.
 
-(* either the action runs undisturbed, or exactly one of its system calls fails;
-   then only the temporary file may have changed, one ERROR line names it, and
-   the plan is used up *)
-Record clean_save (f : path) (new : str) (w w' : world) : Prop := {
-  cs_st : w_st w' = exec (save_ops f new) (w_st w);
-  cs_count : w_count w' = (w_count w + 4)%nat;
-  cs_err : w_stderr w' = w_stderr w;
-  cs_saved : w_saved w' = true;
-  cs_trace : map fst (w_trace w') = map fst (w_trace w) ++ save_ops f new;
-  cs_results : forall x, In x (skipn (length (w_trace w)) (w_trace w')) -> snd x = None;
-  cs_plan : forall k fl, w_plan w = Some (k, fl) -> (k < w_count w \/ w_count w + 4 <= k)%nat
+Lemma sys_fired o w fl :
+  fires w = Some fl ->
+  sys o w = (mkworld (step_fault (w_st w) o fl) (S (w_count w)) (w_plan w)
+                     (w_trace w ++ [(o, Some (fl_errno fl))]) (w_stderr w) (w_saved w), Some (fl_errno fl)).
+Proof. intros F. rewrite sys_unfold, F. reflexivity. Qed.
+
+(* the plan has fired already *)
+Definition spent (w : world) : Prop :=
+  match w_plan w with Some (k, _) => (k < w_count w)%nat | None => True end.
+
+Lemma spent_fires w : spent w -> fires w = None.
+Proof.
+  unfold spent, fires. destruct (w_plan w) as [[k fl]|]; [|reflexivity].
+  intro H. rewrite (proj2 (Nat.eqb_neq _ _)) by lia. reflexivity.
+Qed.
+
+(* ---------- what one save does to the world ---------- *)
+
+(* no system call of the save is hit by the plan: it runs as save_ops says; the only
+   error it can meet is EEXIST from the exclusive open *)
+Record unfaulted_save (f : path) (new : str) (w w' : world) : Prop := {
+  us_st : w_st w' = exec (save_ops (w_st w) f new) (w_st w);
+  us_count : w_count w' = (w_count w + length (save_ops (w_st w) f new))%nat;
+  us_err : w_stderr w' = w_stderr w ++
+             (if save_succeeds (w_st w) f then [] else [(CannotWrite, tmp_name f)]);
+  us_saved : w_saved w' = save_succeeds (w_st w) f;
+  us_trace : map fst (w_trace w') = map fst (w_trace w) ++ save_ops (w_st w) f new;
+  us_plan : forall k fl, w_plan w = Some (k, fl) -> (k < w_count w \/ w_count w' <= k)%nat
 }.
 
-Record failed_action (loc : path) (untouched : path -> Prop) (w w' : world) : Prop := {
-  fa_fs : forall p, untouched p -> lookup p (st_fs (w_st w')) = lookup p (st_fs (w_st w));
-  fa_err : exists kind, w_stderr w' = w_stderr w ++ [(kind, loc)];
-  fa_saved : w_saved w' = w_saved w \/ w_saved w' = false;
-  fa_plan : exists k fl, w_plan w = Some (k, fl) /\ (w_count w <= k < w_count w')%nat
+(* one system call of the save is hit: only the temporary name may be affected, and if
+   that name was free before, it is free again afterwards (nothing stale is left);
+   one ERROR line names it; the plan is used up *)
+Record failed_save (f : path) (w w' : world) : Prop := {
+  fa_fs : forall p, p <> tmp_name f -> lookup p (st_fs (w_st w')) = lookup p (st_fs (w_st w));
+  fa_tmp : lookup (tmp_name f) (st_fs (w_st w)) = None -> lookup (tmp_name f) (st_fs (w_st w')) = None;
+  fa_err : exists kind, w_stderr w' = w_stderr w ++ [(kind, tmp_name f)];
+  fa_saved : w_saved w' = false;
+  fa_plan : exists k fl, w_plan w = Some (k, fl) /\ (w_count w <= k < w_count w')%nat;
+  (* if the temporary name was taken, the failing call was the open: nothing changed *)
+  fa_taken : forall f0, lookup (tmp_name f) (st_fs (w_st w)) = Some f0 -> w_st w' = w_st w
 }.
+
+(* the error path: TechErrorf, then os.Remove(tmpName) *)
+Lemma fail_tail st kind tmp w4 :
+  spent w4 -> tmp_only st (w_st w4) tmp -> (exists f0, lookup tmp (st_fs (w_st w4)) = Some f0) ->
+  let w' := fst (sys (Unlink tmp) (tech_error kind tmp w4)) in
+  tmp_only st (w_st w') tmp /\ lookup tmp (st_fs (w_st w')) = None /\
+  w_stderr w' = w_stderr w4 ++ [(kind, tmp)] /\ w_count w' = S (w_count w4) /\
+  w_plan w' = w_plan w4 /\ w_saved w' = w_saved w4.
+Proof.
+  intros Hs Ho [f0 Ht].
+  assert (F : fires (tech_error kind tmp w4) = None) by (apply spent_fires; exact Hs).
+  destruct (step_unlink_tmp st (w_st w4) tmp f0 Ho Ht) as [R [Ho' Ht']].
+  cbn zeta. rewrite (sys_ok _ _ F R). cbn [fst tech_error w_st w_count w_plan w_trace w_stderr w_saved].
+  repeat split; assumption.
+Qed.
 
 Lemma save_one_cases w f new :
   let w' := save_one f new w in
-  w_plan w' = w_plan w /\ (w_count w < w_count w' <= w_count w + 4)%nat /\
-  (clean_save f new w w' \/
-   (failed_action (tmp_name f) (fun p => p <> tmp_name f) w w' /\ w_saved w' = false)).
+  w_plan w' = w_plan w /\ (w_count w < w_count w' <= w_count w + 6)%nat /\
+  (unfaulted_save f new w w' \/ failed_save f w w').
 Proof.
   destruct w as [st c plan tr err sv].
-  unfold save_one, write_file, set_saved. cbn [w_st w_count w_plan w_trace w_stderr w_saved].
-  (* open *)
-  rewrite sys_unfold. cbn [w_st w_count w_plan w_trace w_stderr w_saved].
+  unfold save_one, set_saved. cbn [w_st w_count w_plan w_trace w_stderr w_saved].
+  set (tmp := tmp_name f).
+  (* ---- the exclusive open ---- *)
   destruct (fires (mkworld st c plan tr err false)) as [fl|] eqn:F0.
-  { apply fires_some in F0. cbn in F0. cbn [tech_error w_st w_count w_plan w_trace w_stderr w_saved step_fault].
-    split; [reflexivity|]. split; [lia|]. right. split; [|reflexivity]. constructor; cbn.
+  { rewrite (sys_fired _ _ fl F0). apply fires_some in F0. cbn in F0.
+    cbn [tech_error w_st w_count w_plan w_trace w_stderr w_saved step_fault].
+    split; [reflexivity|]. split; [lia|]. right. constructor; cbn.
     - reflexivity.
+    - auto.
     - eexists. reflexivity.
-    - right. reflexivity.
-    - exists c, fl. split; [exact F0|lia]. }
-  rewrite step_open_eq. cbn [fst snd].
-  (* write *)
-  rewrite sys_unfold. cbn [w_st w_count w_plan w_trace w_stderr w_saved].
-  destruct (fires (mkworld (exec [Open 0 (tmp_name f) 438] st) (S c) plan _ err false)) as [fl|] eqn:F1.
-  { apply fires_some in F1. cbn in F1.
-    rewrite sys_unfold. cbn [w_st w_count w_plan w_trace w_stderr w_saved].
-    assert (F2 : fires (mkworld (step_fault (exec [Open 0 (tmp_name f) 438] st) (Write 0 new) fl) (S (S c)) plan
-                  ((tr ++ [(Open 0 (tmp_name f) 438, None)]) ++ [(Write 0 new, Some (fl_errno fl))]) err false) = None).
-    { unfold fires. cbn. rewrite F1. rewrite (proj2 (Nat.eqb_neq _ _)) by lia. reflexivity. }
-    rewrite F2. cbn [step_fault]. rewrite step_write_eq. cbn [fst]. rewrite step_close. cbn [fst snd].
-    cbn [tech_error w_st w_count w_plan w_trace w_stderr w_saved].
-    split; [reflexivity|]. split; [lia|]. right. split; [|reflexivity]. constructor; cbn.
-    - intros p Hp. apply lookup_written_other. exact Hp.
-    - eexists. reflexivity.
-    - right. reflexivity.
-    - exists (S c), fl. split; [exact F1|lia]. }
-  rewrite step_write_eq. cbn [fst snd].
-  (* close *)
-  rewrite sys_unfold. cbn [w_st w_count w_plan w_trace w_stderr w_saved].
-  destruct (fires (mkworld (st_written st f new) (S (S c)) plan _ err false)) as [fl|] eqn:F2.
-  { apply fires_some in F2. cbn in F2. cbn [step_fault]. rewrite step_close. cbn [fst].
-    cbn [tech_error w_st w_count w_plan w_trace w_stderr w_saved].
-    split; [reflexivity|]. split; [lia|]. right. split; [|reflexivity]. constructor; cbn.
-    - intros p Hp. apply lookup_written_other. exact Hp.
-    - eexists. reflexivity.
-    - right. reflexivity.
-    - exists (S (S c)), fl. split; [exact F2|lia]. }
-  rewrite step_close. cbn [fst snd].
-  (* rename *)
-  rewrite sys_unfold. cbn [w_st w_count w_plan w_trace w_stderr w_saved].
-  destruct (fires (mkworld (st_closed st f new) (S (S (S c))) plan _ err false)) as [fl|] eqn:F3.
-  { apply fires_some in F3. cbn in F3. cbn [step_fault].
-    cbn [tech_error w_st w_count w_plan w_trace w_stderr w_saved].
-    split; [reflexivity|]. split; [lia|]. right. split; [|reflexivity]. constructor; cbn.
-    - intros p Hp. apply lookup_written_other. exact Hp.
-    - eexists. reflexivity.
-    - right. reflexivity.
-    - exists (S (S (S c))), fl. split; [exact F3|lia]. }
-  rewrite step_rename. cbn [fst snd set_saved w_st w_count w_plan w_trace w_stderr w_saved].
-  split; [reflexivity|]. split; [lia|]. left. constructor; cbn [w_st w_count w_plan w_trace w_stderr w_saved].
-  - symmetry. apply exec_save.
-  - lia.
-  - reflexivity.
-  - reflexivity.
-  - rewrite !map_app. cbn. rewrite <- !app_assoc. reflexivity.
-  - intros x Hx. rewrite <- !app_assoc in Hx. rewrite skipn_app, skipn_all, Nat.sub_diag in Hx.
-    cbn in Hx. destruct Hx as [<-|[<-|[<-|[<-|[]]]]]; reflexivity.
-  - intros k fl Hp. subst plan.
+    - reflexivity.
+    - exists c, fl. split; [exact F0|lia].
+    - reflexivity. }
+  destruct (lookup tmp (st_fs st)) as [f0|] eqn:Etmp.
+  { (* the name is taken: EEXIST *)
+    rewrite sys_unfold, F0. cbn [w_st w_count w_plan w_trace w_stderr w_saved].
+    rewrite (step_openexcl_taken st tmp f0 Etmp). cbn [fst snd tech_error w_st w_count w_plan w_trace w_stderr w_saved].
+    split; [reflexivity|]. split; [lia|]. left.
+    assert (Eops : save_ops st f new = [OpenExcl 0 tmp 438]) by (unfold save_ops; fold tmp; rewrite Etmp; reflexivity).
+    assert (Esucc : save_succeeds st f = false) by (unfold save_succeeds; fold tmp; rewrite Etmp; reflexivity).
+    constructor; cbn [tech_error w_st w_count w_plan w_trace w_stderr w_saved]; rewrite ?Eops, ?Esucc.
+    - unfold exec. cbn [fold_left]. rewrite (step_openexcl_taken st tmp f0 Etmp). reflexivity.
+    - cbn. lia.
+    - reflexivity.
+    - reflexivity.
+    - rewrite map_app. reflexivity.
+    - intros k fl Hp. subst plan. pose proof (fires_none _ k fl F0 eq_refl) as N0. cbn in N0. lia. }
+  destruct (step_openexcl_free st tmp Etmp) as [R1 W1].
+  rewrite (sys_ok _ _ F0 R1). cbn [w_st w_count w_plan w_trace w_stderr w_saved].
+  set (s1 := fst (step st (OpenExcl 0 tmp 438))) in *.
+  set (tr1 := tr ++ [(OpenExcl 0 tmp 438, None)]).
+  assert (Hfne : f <> tmp) by (intro E; apply (tmp_name_neq f); symmetry; exact E).
+  (* ---- write ---- *)
+  destruct (fires (mkworld s1 (S c) plan tr1 err false)) as [fl|] eqn:F1.
+  { rewrite (sys_fired _ _ fl F1). apply fires_some in F1. cbn in F1.
+    cbn [w_st w_count w_plan w_trace w_stderr w_saved step_fault].
+    destruct (step_write st s1 tmp [] _ (firstn (fl_short fl) new) W1) as [_ W2].
+    set (s2 := fst (step s1 (Write 0 (firstn (fl_short fl) new)))) in *.
+    set (tr2 := tr1 ++ _).
+    assert (F2 : fires (mkworld s2 (S (S c)) plan tr2 err false) = None).
+    { apply spent_fires. unfold spent. cbn. rewrite F1. lia. }
+    destruct (step_close st s2 tmp _ _ W2) as [R3 C3].
+    rewrite (sys_ok _ _ F2 R3). cbn [w_st w_count w_plan w_trace w_stderr w_saved].
+    set (s3 := fst (step s2 (Close 0))) in *. set (tr3 := tr2 ++ _).
+    destruct (fail_tail st CannotWrite tmp (mkworld s3 (S (S (S c))) plan tr3 err false))
+      as [T1 [T2 [T3 [T4 [T5 T6]]]]].
+    { unfold spent. cbn. rewrite F1. lia. }
+    { apply (cl_only _ _ _ _ _ C3). }
+    { eexists. apply (cl_tmp _ _ _ _ _ C3). }
+    cbn [w_st w_count w_plan w_trace w_stderr w_saved] in *.
+    split; [exact T5|]. split; [rewrite T4; lia|]. right. constructor; cbn [tech_error w_st w_count w_plan w_trace w_stderr w_saved].
+    - exact T1.
+    - intros _. exact T2.
+    - eexists. exact T3.
+    - exact T6.
+    - exists (S c), fl. split; [exact F1|rewrite T4; lia].
+    - intros f0' H'; exfalso; revert H'; change (tmp_name f) with tmp; rewrite Etmp; discriminate. }
+  destruct (step_write st s1 tmp [] _ new W1) as [R2 W2]. cbn [app] in W2.
+  rewrite (sys_ok _ _ F1 R2). cbn [w_st w_count w_plan w_trace w_stderr w_saved].
+  set (s2 := fst (step s1 (Write 0 new))) in *. set (tr2 := tr1 ++ [(Write 0 new, None)]).
+  (* ---- close ---- *)
+  destruct (step_close st s2 tmp _ _ W2) as [R3 C3].
+  destruct (fires (mkworld s2 (S (S c)) plan tr2 err false)) as [fl|] eqn:F2.
+  { rewrite (sys_fired _ _ fl F2). apply fires_some in F2. cbn in F2.
+    cbn [w_st w_count w_plan w_trace w_stderr w_saved step_fault].
+    set (s3 := fst (step s2 (Close 0))) in *. set (tr3 := tr2 ++ _).
+    destruct (fail_tail st CannotWrite tmp (mkworld s3 (S (S (S c))) plan tr3 err false))
+      as [T1 [T2 [T3 [T4 [T5 T6]]]]].
+    { unfold spent. cbn. rewrite F2. lia. }
+    { apply (cl_only _ _ _ _ _ C3). }
+    { eexists. apply (cl_tmp _ _ _ _ _ C3). }
+    cbn [w_st w_count w_plan w_trace w_stderr w_saved] in *.
+    split; [exact T5|]. split; [rewrite T4; lia|]. right. constructor; cbn [tech_error w_st w_count w_plan w_trace w_stderr w_saved].
+    - exact T1.
+    - intros _. exact T2.
+    - eexists. exact T3.
+    - exact T6.
+    - exists (S (S c)), fl. split; [exact F2|rewrite T4; lia].
+    - intros f0' H'; exfalso; revert H'; change (tmp_name f) with tmp; rewrite Etmp; discriminate. }
+  rewrite (sys_ok _ _ F2 R3). cbn [w_st w_count w_plan w_trace w_stderr w_saved].
+  set (s3 := fst (step s2 (Close 0))) in *. set (tr3 := tr2 ++ [(Close 0, None)]).
+  (* ---- Stat, Chmod ---- *)
+  assert (Ef : lookup f (st_fs s3) = lookup f (st_fs st)) by (apply (cl_only _ _ _ _ _ C3); exact Hfne).
+  rewrite Ef.
+  assert (Eops : save_ops st f new =
+                 [OpenExcl 0 tmp 438; Write 0 new; Close 0] ++
+                 match lookup f (st_fs st) with Some old => [Chmod tmp (f_mode old)] | None => [] end ++
+                 [Rename tmp f]) by (unfold save_ops; fold tmp; rewrite Etmp; reflexivity).
+  assert (Esucc : save_succeeds st f = true) by (unfold save_succeeds; fold tmp; rewrite Etmp; reflexivity).
+  (* the rename and what follows, from any closed state s4 reached with count n *)
+  assert (Tail : forall s4 n tr4 m (chm : list op),
+            closed st s4 tmp new m -> (S (S (S c)) <= n <= S (S (S (S c))))%nat ->
+            (forall k fl, plan = Some (k, fl) -> (k < c \/ n <= k)%nat) ->
+            map fst tr4 = map fst tr ++ [OpenExcl 0 tmp 438; Write 0 new; Close 0] ++ chm ->
+            n = (c + 3 + length chm)%nat ->
+            s4 = exec ([OpenExcl 0 tmp 438; Write 0 new; Close 0] ++ chm) st ->
+            save_ops st f new = [OpenExcl 0 tmp 438; Write 0 new; Close 0] ++ chm ++ [Rename tmp f] ->
+            let w' := match sys (Rename tmp f) (mkworld s4 n plan tr4 err false) with
+                      | (w5, Some _) => fst (sys (Unlink tmp) (tech_error CannotOverwrite tmp w5))
+                      | (w5, None) => mkworld (w_st w5) (w_count w5) (w_plan w5) (w_trace w5) (w_stderr w5) true
+                      end in
+            w_plan w' = plan /\ (c < w_count w' <= c + 6)%nat /\
+            (unfaulted_save f new (mkworld st c plan tr err sv) w' \/
+             failed_save f (mkworld st c plan tr err sv) w')).
+  { intros s4 n tr4 m chm C4 Hn Hpl Htr Hlen Hs4 Hops.
+    destruct (step_rename_tmp st s4 tmp f new m C4 (tmp_name_neq f)) as [R5 [L1 [L2 L3]]].
+    destruct (fires (mkworld s4 n plan tr4 err false)) as [fl|] eqn:F4.
+    - rewrite (sys_fired _ _ fl F4). apply fires_some in F4. cbn in F4.
+      cbn [w_st w_count w_plan w_trace w_stderr w_saved step_fault].
+      destruct (fail_tail st CannotOverwrite tmp (mkworld s4 (S n) plan (tr4 ++ [(Rename tmp f, Some (fl_errno fl))]) err false))
+        as [T1 [T2 [T3 [T4 [T5 T6]]]]].
+      { unfold spent. cbn. rewrite F4. lia. }
+      { apply (cl_only _ _ _ _ _ C4). }
+      { eexists. apply (cl_tmp _ _ _ _ _ C4). }
+      cbn [w_st w_count w_plan w_trace w_stderr w_saved] in *. cbn zeta.
+      split; [exact T5|]. split; [rewrite T4; lia|]. right. constructor; cbn [tech_error w_st w_count w_plan w_trace w_stderr w_saved].
+      + exact T1.
+      + intros _. exact T2.
+      + eexists. exact T3.
+      + exact T6.
+      + exists n, fl. split; [exact F4|rewrite T4; lia].
+      + intros f0' H'; exfalso; revert H'; change (tmp_name f) with tmp; rewrite Etmp; discriminate.
+    - rewrite (sys_ok _ _ F4 R5). cbn [w_st w_count w_plan w_trace w_stderr w_saved]. cbn zeta.
+      split; [reflexivity|]. split; [lia|]. left.
+      constructor; cbn [tech_error w_st w_count w_plan w_trace w_stderr w_saved]; rewrite ?Esucc.
+      + rewrite Hops, app_assoc, exec_snoc, <- Hs4. reflexivity.
+      + rewrite Hops, !app_length. cbn [length]. lia.
+      + rewrite app_nil_r. reflexivity.
+      + reflexivity.
+      + rewrite map_app, Htr, Hops. cbn [map fst]. rewrite <- !app_assoc. reflexivity.
+      + intros k fl Hp. destruct (Hpl k fl Hp) as [H|H]; [left; exact H|].
+        pose proof (fires_none _ k fl F4 Hp) as N4. cbn in N4. right. lia. }
+  assert (Hpl3 : forall k fl, plan = Some (k, fl) -> (k < c \/ S (S (S c)) <= k)%nat).
+  { intros k fl Hp. subst plan.
     pose proof (fires_none _ k fl F0 eq_refl) as N0. pose proof (fires_none _ k fl F1 eq_refl) as N1.
-    pose proof (fires_none _ k fl F2 eq_refl) as N2. pose proof (fires_none _ k fl F3 eq_refl) as N3.
-    cbn in N0, N1, N2, N3. lia.
+    pose proof (fires_none _ k fl F2 eq_refl) as N2. cbn in N0, N1, N2. lia. }
+  assert (Hs3 : s3 = exec [OpenExcl 0 tmp 438; Write 0 new; Close 0] st) by reflexivity.
+  assert (Htr3 : map fst tr3 = map fst tr ++ [OpenExcl 0 tmp 438; Write 0 new; Close 0]).
+  { unfold tr3, tr2, tr1. rewrite !map_app. cbn [map fst]. rewrite <- !app_assoc. reflexivity. }
+  destruct (lookup f (st_fs st)) as [old|] eqn:Eold.
+  - (* the original exists: its mode goes to the temporary file *)
+    destruct (step_chmod_tmp st s3 tmp _ _ (f_mode old) C3) as [R4 C4].
+    destruct (fires (mkworld s3 (S (S (S c))) plan tr3 err false)) as [fl|] eqn:F3.
+    + rewrite (sys_fired _ _ fl F3). apply fires_some in F3. cbn in F3.
+      cbn [w_st w_count w_plan w_trace w_stderr w_saved step_fault].
+      destruct (fail_tail st CannotWrite tmp (mkworld s3 (S (S (S (S c)))) plan (tr3 ++ [(Chmod tmp (f_mode old), Some (fl_errno fl))]) err false))
+        as [T1 [T2 [T3 [T4 [T5 T6]]]]].
+      { unfold spent. cbn. rewrite F3. lia. }
+      { apply (cl_only _ _ _ _ _ C3). }
+      { eexists. apply (cl_tmp _ _ _ _ _ C3). }
+      cbn [w_st w_count w_plan w_trace w_stderr w_saved] in *.
+      split; [exact T5|]. split; [rewrite T4; lia|]. right. constructor; cbn [tech_error w_st w_count w_plan w_trace w_stderr w_saved].
+      * exact T1.
+      * intros _. exact T2.
+      * eexists. exact T3.
+      * exact T6.
+      * exists (S (S (S c))), fl. split; [exact F3|rewrite T4; lia].
+      * intros f0' H'; exfalso; revert H'; change (tmp_name f) with tmp; rewrite Etmp; discriminate.
+    + rewrite (sys_ok _ _ F3 R4). cbn [w_st w_count w_plan w_trace w_stderr w_saved].
+      apply (Tail _ (S (S (S (S c)))) _ (f_mode old) [Chmod tmp (f_mode old)] C4).
+      * lia.
+      * intros k fl Hp. destruct (Hpl3 k fl Hp) as [H|H]; [left; exact H|].
+        pose proof (fires_none _ k fl F3 Hp) as N3. cbn in N3. right. lia.
+      * rewrite map_app, Htr3. cbn [map fst]. rewrite <- app_assoc. reflexivity.
+      * cbn [length]. lia.
+      * rewrite exec_snoc, <- Hs3. reflexivity.
+      * exact Eops.
+  - (* no original (Stat fails): no chmod *)
+    apply (Tail s3 (S (S (S c))) tr3 _ [] C3).
+    * lia.
+    * exact Hpl3.
+    * rewrite app_nil_r. exact Htr3.
+    * cbn [length]. lia.
+    * rewrite app_nil_r. exact Hs3.
+    * exact Eops.
 Qed.
 
 Lemma content_chmod s f m p :
@@ -189,21 +331,26 @@ Record action_sum (D : path -> Prop) (a : action) (w w' : world) : Prop := {
   as_untouched : fired_in w w' -> forall p, D p -> content (st_fs (w_st w')) p = content (st_fs (w_st w)) p
 }.
 
+(* D: paths that exist when the action starts *)
 Lemma save_sum (D : path -> Prop) f new w b :
-  (forall p, D p -> p <> tmp_name f) ->
+  (forall p, D p -> content (st_fs (w_st w)) p <> None) ->
   action_sum D (ASave f new) w (save_one f new w) /\ action_sum D (AIfSaved b f new) w (save_one f new w).
 Proof.
-  intro HD. destruct (save_one_cases w f new) as [Hp [Hc [C|[F Fs]]]].
+  intro HD. destruct (save_one_cases w f new) as [Hp [Hc [U|F]]].
   - assert (Hnf : ~ fired_in w (save_one f new w)).
-    { intros [k [fl [Hpl Hk]]]. destruct (cs_plan _ _ _ _ C k fl Hpl); rewrite (cs_count _ _ _ _ C) in Hk; lia. }
+    { intros [k [fl [Hpl Hk]]]. destruct (us_plan _ _ _ _ U k fl Hpl); lia. }
     split; constructor; try exact Hp; try lia;
-      try (intros p Hd; rewrite (cs_st _ _ _ _ C);
+      try (intros p Hd; rewrite (us_st _ _ _ _ U);
            apply (save_crash_ok (w_st w) f new _ p b (crash_of_full _) (HD p Hd)));
-      try (exists []; split; [rewrite app_nil_r; apply (cs_err _ _ _ _ C)|intro; contradiction]);
+      try (eexists; split; [apply (us_err _ _ _ _ U)|intro; contradiction]);
       try (intro; contradiction).
   - assert (Hu : forall p, D p -> content (st_fs (w_st (save_one f new w))) p = content (st_fs (w_st w)) p).
-    { intros p Hd. unfold content. rewrite (fa_fs _ _ _ _ F p (HD p Hd)). reflexivity. }
-    destruct (fa_err _ _ _ _ F) as [kind He].
+    { intros p Hd. unfold content.
+      destruct (lookup (tmp_name f) (st_fs (w_st w))) as [f0|] eqn:El.
+      - rewrite (fa_taken _ _ _ F f0 El). reflexivity.
+      - rewrite (fa_fs _ _ _ F p); [reflexivity|].
+        intros ->. apply (HD _ Hd). unfold content. rewrite El. reflexivity. }
+    destruct (fa_err _ _ _ F) as [kind He].
     split; constructor; try exact Hp; try lia;
       try (intros p Hd; rewrite (Hu p Hd); apply ok_rel_refl);
       try (eexists; split; [exact He|intros _; discriminate]);
@@ -230,14 +377,14 @@ Proof.
 Qed.
 
 Lemma run_action_sum (D : path -> Prop) a w :
-  (forall f, In f (saved_paths [a]) -> forall p, D p -> p <> tmp_name f) ->
+  (forall p, D p -> content (st_fs (w_st w)) p <> None) ->
   action_sum D a w (run_action w a).
 Proof.
   intro HD. destruct a as [f new|f m|b f new]; cbn [run_action].
-  - apply (save_sum D f new w true). intros p Hd. apply (HD f); [left; reflexivity|exact Hd].
+  - apply (save_sum D f new w true HD).
   - apply chmod_sum.
   - destruct (Bool.eqb (w_saved w) b).
-    + apply (save_sum D f new w b). intros p Hd. apply (HD f); [left; reflexivity|exact Hd].
+    + apply (save_sum D f new w b HD).
     + apply skip_sum.
 Qed.
 
@@ -249,11 +396,8 @@ Proof. reflexivity. Qed.
 Lemma run_app p1 p2 w : run (p1 ++ p2) w = run p2 (run p1 w).
 Proof. unfold run. apply fold_left_app. Qed.
 
-Lemma saved_paths_app a b : saved_paths (a ++ b) = saved_paths a ++ saved_paths b.
-Proof. induction a as [|[f n|f m|c f n] a IH]; simpl; congruence. Qed.
-
 Lemma run_sum (D : path -> Prop) prog : forall w,
-  (forall f, In f (saved_paths prog) -> forall p, D p -> p <> tmp_name f) ->
+  (forall p, D p -> content (st_fs (w_st w)) p <> None) ->
   w_plan (run prog w) = w_plan w /\ (w_count w <= w_count (run prog w))%nat /\
   (forall p, D p -> ok_rel prog p (content (st_fs (w_st w)) p) (content (st_fs (w_st (run prog w))) p)) /\
   (exists extra, w_stderr (run prog w) = w_stderr w ++ extra /\ (fired_in w (run prog w) -> extra <> [])).
@@ -262,12 +406,10 @@ Proof.
   - cbn [run fold_left]. split; [reflexivity|]. split; [lia|]. split; [intros; apply ok_rel_refl|].
     exists []. split; [rewrite app_nil_r; reflexivity|]. intros [k [fl [_ Hk]]]. lia.
   - rewrite run_cons.
-    assert (HDa : forall f, In f (saved_paths [a]) -> forall p, D p -> p <> tmp_name f).
-    { intros f Hf. apply HD. change (a :: prog) with ([a] ++ prog). rewrite saved_paths_app. apply in_or_app. left. exact Hf. }
-    assert (HDp : forall f, In f (saved_paths prog) -> forall p, D p -> p <> tmp_name f).
-    { intros f Hf. apply HD. change (a :: prog) with ([a] ++ prog). rewrite saved_paths_app. apply in_or_app. right. exact Hf. }
-    pose proof (run_action_sum D a w HDa) as A.
-    destruct (IH (run_action w a) HDp) as [Ip [Ic [Ir [ex2 [Ie If]]]]].
+    pose proof (run_action_sum D a w HD) as A.
+    assert (HD' : forall p, D p -> content (st_fs (w_st (run_action w a))) p <> None).
+    { intros p Hd. apply (ok_rel_some _ _ _ _ (as_rel _ _ _ _ A p Hd) (HD p Hd)). }
+    destruct (IH (run_action w a) HD') as [Ip [Ic [Ir [ex2 [Ie If]]]]].
     destruct (as_err _ _ _ _ A) as [ex1 [Ae Af]].
     split; [rewrite Ip; apply (as_plan _ _ _ _ A)|].
     split; [pose proof (as_count _ _ _ _ A); lia|].
@@ -289,15 +431,6 @@ Qed.
 Definition clear_plan (w : world) : world :=
   mkworld (w_st w) (w_count w) None (w_trace w) (w_stderr w) (w_saved w).
 
-Definition spent (w : world) : Prop :=
-  match w_plan w with Some (k, _) => (k < w_count w)%nat | None => True end.
-
-Lemma spent_fires w : spent w -> fires w = None.
-Proof.
-  unfold spent, fires. destruct (w_plan w) as [[k fl]|]; [|reflexivity].
-  intro H. rewrite (proj2 (Nat.eqb_neq _ _)) by lia. reflexivity.
-Qed.
-
 Lemma sys_clear o w : spent w ->
   sys o (clear_plan w) = (clear_plan (fst (sys o w)), snd (sys o w)) /\ spent (fst (sys o w)).
 Proof.
@@ -307,21 +440,8 @@ Proof.
   destruct (w_plan w) as [[k fl]|]; [lia|exact I].
 Qed.
 
-Lemma write_file_clear name data perm w : spent w ->
-  write_file name data perm (clear_plan w) =
-    (clear_plan (fst (write_file name data perm w)), snd (write_file name data perm w)) /\
-  spent (fst (write_file name data perm w)).
-Proof.
-  intro H. unfold write_file.
-  destruct (sys_clear (Open 0 name perm) w H) as [C1 S1]. rewrite C1.
-  destruct (sys (Open 0 name perm) w) as [w1 [e|]]; cbn [fst snd] in *.
-  - split; [reflexivity|exact S1].
-  - destruct (sys_clear (Write 0 data) w1 S1) as [C2 S2]. rewrite C2.
-    destruct (sys (Write 0 data) w1) as [w2 err]; cbn [fst snd] in *.
-    destruct (sys_clear (Close 0) w2 S2) as [C3 S3]. rewrite C3.
-    destruct (sys (Close 0) w2) as [w3 err1]; cbn [fst snd] in *.
-    split; [reflexivity|exact S3].
-Qed.
+Lemma spent_tech k loc w : spent w -> spent (tech_error k loc w).
+Proof. intro H. exact H. Qed.
 
 Lemma save_one_clear f new w : spent w ->
   save_one f new (clear_plan w) = clear_plan (save_one f new w) /\ spent (save_one f new w).
@@ -329,13 +449,49 @@ Proof.
   intro H. unfold save_one.
   assert (H0 : spent (set_saved false w)) by exact H.
   change (set_saved false (clear_plan w)) with (clear_plan (set_saved false w)).
-  destruct (write_file_clear (tmp_name f) new 438 _ H0) as [C1 S1]. rewrite C1.
-  destruct (write_file (tmp_name f) new 438 (set_saved false w)) as [w1 [e|]]; cbn [fst snd] in *.
+  destruct (sys_clear (OpenExcl 0 (tmp_name f) 438) _ H0) as [C1 S1]. rewrite C1.
+  destruct (sys (OpenExcl 0 (tmp_name f) 438) (set_saved false w)) as [w1 [e|]]; cbn [fst snd] in *.
   - split; [reflexivity|exact S1].
-  - destruct (sys_clear (Rename (tmp_name f) f) w1 S1) as [C2 S2]. rewrite C2.
-    destruct (sys (Rename (tmp_name f) f) w1) as [w2 [e|]]; cbn [fst snd] in *.
-    + split; [reflexivity|exact S2].
-    + split; [reflexivity|exact S2].
+  - destruct (sys_clear (Write 0 new) w1 S1) as [C2 S2]. rewrite C2.
+    destruct (sys (Write 0 new) w1) as [w2 err]; cbn [fst snd] in *.
+    destruct (sys_clear (Close 0) w2 S2) as [C3 S3]. rewrite C3.
+    destruct (sys (Close 0) w2) as [w3 err1]; cbn [fst snd] in *.
+    change (w_st (clear_plan w3)) with (w_st w3).
+    (* the error path, from any spent world *)
+    assert (Tail : forall kind w4, spent w4 ->
+              fst (sys (Unlink (tmp_name f)) (tech_error kind (tmp_name f) (clear_plan w4))) =
+              clear_plan (fst (sys (Unlink (tmp_name f)) (tech_error kind (tmp_name f) w4))) /\
+              spent (fst (sys (Unlink (tmp_name f)) (tech_error kind (tmp_name f) w4)))).
+    { intros kind w4 S4.
+      change (tech_error kind (tmp_name f) (clear_plan w4)) with (clear_plan (tech_error kind (tmp_name f) w4)).
+      destruct (sys_clear (Unlink (tmp_name f)) _ (spent_tech kind (tmp_name f) w4 S4)) as [C S]. rewrite C.
+      split; [reflexivity|exact S]. }
+    assert (Ren : forall w4, spent w4 ->
+              match sys (Rename (tmp_name f) f) (clear_plan w4) with
+              | (w5, Some _) => fst (sys (Unlink (tmp_name f)) (tech_error CannotOverwrite (tmp_name f) w5))
+              | (w5, None) => set_saved true w5
+              end =
+              clear_plan match sys (Rename (tmp_name f) f) w4 with
+                         | (w5, Some _) => fst (sys (Unlink (tmp_name f)) (tech_error CannotOverwrite (tmp_name f) w5))
+                         | (w5, None) => set_saved true w5
+                         end /\
+              spent match sys (Rename (tmp_name f) f) w4 with
+                    | (w5, Some _) => fst (sys (Unlink (tmp_name f)) (tech_error CannotOverwrite (tmp_name f) w5))
+                    | (w5, None) => set_saved true w5
+                    end).
+    { intros w4 S4. destruct (sys_clear (Rename (tmp_name f) f) w4 S4) as [C5 S5]. rewrite C5.
+      destruct (sys (Rename (tmp_name f) f) w4) as [w5 [e|]]; cbn [fst snd] in *.
+      - apply Tail. exact S5.
+      - split; [reflexivity|exact S5]. }
+    destruct err as [e|]; [|destruct err1 as [e|]].
+    + apply Tail. exact S3.
+    + apply Tail. exact S3.
+    + destruct (lookup f (st_fs (w_st w3))) as [old|].
+      * destruct (sys_clear (Chmod (tmp_name f) (f_mode old)) w3 S3) as [C4 S4]. rewrite C4.
+        destruct (sys (Chmod (tmp_name f) (f_mode old)) w3) as [w4 [e|]]; cbn [fst snd] in *.
+        -- apply Tail. exact S4.
+        -- apply Ren. exact S4.
+      * apply Ren. exact S3.
 Qed.
 
 Lemma run_action_clear a w : spent w ->
@@ -359,18 +515,16 @@ Qed.
 
 (* ---------- the theorems ---------- *)
 
-Definition orig (init : fsmap) (p : path) : Prop := exists f0, lookup p init = Some f0.
-
 (* (1) old-or-new for every original file, whatever single system call fails and
-   whatever it leaves behind; (2) if a call did fail, stderr has an ERROR line *)
+   whatever it leaves behind; (2) if a call did fail, stderr has an ERROR line.
+   No guard: an existing file is never the temporary file of a save. *)
 Theorem fault_atomic : forall (s : state) (prog : list action) (k : nat) (fl : fault),
-  tmp_free (st_fs s) prog ->
   let w := run prog (init_world s (Some (k, fl))) in
   atomic_at (st_fs s) prog (st_fs (w_st w)) /\
   ((k < w_count w)%nat -> w_stderr w <> []).
 Proof.
-  intros s prog k fl Hfree w.
-  destruct (run_sum (orig (st_fs s)) prog (init_world s (Some (k, fl))) (tmp_free_D _ _ Hfree))
+  intros s prog k fl w.
+  destruct (run_sum (orig (st_fs s)) prog (init_world s (Some (k, fl))) (orig_exists s))
     as [_ [_ [Hr [extra [He Hf]]]]].
   fold w in Hr, He, Hf. split.
   - intros p f0 Hl. pose proof (Hr p (ex_intro _ f0 Hl)) as H. cbn [init_world w_st] in H.
@@ -388,22 +542,18 @@ Qed.
    was before that action, and (4) everything after it runs exactly as it would
    without any fault plan: later files are still processed *)
 Theorem fault_local : forall (s : state) (pre post : list action) (a : action) (k : nat) (fl : fault),
-  tmp_free (st_fs s) (pre ++ a :: post) ->
   let w1 := run pre (init_world s (Some (k, fl))) in
   let w2 := run_action w1 a in
   (w_count w1 <= k < w_count w2)%nat ->
   (forall p, orig (st_fs s) p -> content (st_fs (w_st w2)) p = content (st_fs (w_st w1)) p) /\
   clear_plan (run (pre ++ a :: post) (init_world s (Some (k, fl)))) = run post (clear_plan w2).
 Proof.
-  intros s pre post a k fl Hfree w1 w2 Hk.
-  assert (HDa : forall f, In f (saved_paths [a]) -> forall p, orig (st_fs s) p -> p <> tmp_name f).
-  { intros f Hf. apply (tmp_free_D _ _ Hfree). rewrite saved_paths_app. apply in_or_app. right.
-    change (a :: post) with ([a] ++ post). rewrite saved_paths_app. apply in_or_app. left. exact Hf. }
-  assert (HDpre : forall f, In f (saved_paths pre) -> forall p, orig (st_fs s) p -> p <> tmp_name f).
-  { intros f Hf. apply (tmp_free_D _ _ Hfree). rewrite saved_paths_app. apply in_or_app. left. exact Hf. }
-  destruct (run_sum (orig (st_fs s)) pre (init_world s (Some (k, fl))) HDpre) as [Hp1 _].
-  fold w1 in Hp1. cbn [init_world w_plan] in Hp1.
-  pose proof (run_action_sum (orig (st_fs s)) a w1 HDa) as A. fold w2 in A.
+  intros s pre post a k fl w1 w2 Hk.
+  destruct (run_sum (orig (st_fs s)) pre (init_world s (Some (k, fl))) (orig_exists s)) as [Hp1 [_ [Hr1 _]]].
+  fold w1 in Hp1, Hr1. cbn [init_world w_plan w_st] in Hp1, Hr1.
+  assert (HD1 : forall p, orig (st_fs s) p -> content (st_fs (w_st w1)) p <> None).
+  { intros p Hd. apply (ok_rel_some _ _ _ _ (Hr1 p Hd) (orig_exists s p Hd)). }
+  pose proof (run_action_sum (orig (st_fs s)) a w1 HD1) as A. fold w2 in A.
   assert (Hfired : fired_in w1 w2) by (exists k, fl; split; [exact Hp1|exact Hk]).
   split.
   - apply (as_untouched _ _ _ _ A Hfired).
@@ -411,25 +561,37 @@ Proof.
     unfold spent. rewrite (as_plan _ _ _ _ A), Hp1. lia.
 Qed.
 
+(* (5) a failed save leaves nothing stale: if the temporary name was free before the
+   action in which the call fails, it is free again after it *)
+Theorem failed_save_no_leftover : forall (f : path) (new : str) (w : world),
+  lookup (tmp_name f) (st_fs (w_st w)) = None ->
+  lookup (tmp_name f) (st_fs (w_st (save_one f new w))) = None.
+Proof.
+  intros f new w Hfree. destruct (save_one_cases w f new) as [_ [_ [U|F]]].
+  - rewrite (us_st _ _ _ _ U). apply (save_preserves_nothing_stale (w_st w) f new Hfree).
+  - apply (fa_tmp _ _ _ F Hfree).
+Qed.
+
 (* ---------- without a fault the program issues exactly prog_ops ---------- *)
 
 Lemma run_nofault prog : forall w,
   w_plan w = None ->
   let w' := run prog w in
-  w_st w' = exec (prog_ops_from (w_saved w) prog) (w_st w) /\
-  map fst (w_trace w') = map fst (w_trace w) ++ prog_ops_from (w_saved w) prog /\
+  w_st w' = exec (prog_ops_from (w_saved w) (w_st w) prog) (w_st w) /\
+  map fst (w_trace w') = map fst (w_trace w) ++ prog_ops_from (w_saved w) (w_st w) prog /\
   w_plan w' = None.
 Proof.
   induction prog as [|a prog IH]; intros w Hp.
   - cbn. rewrite app_nil_r. auto.
   - rewrite run_cons.
     assert (Hsave : forall f new, let w1 := save_one f new w in
-              w_plan w1 = None /\ w_saved w1 = true /\ w_st w1 = exec (save_ops f new) (w_st w) /\
-              map fst (w_trace w1) = map fst (w_trace w) ++ save_ops f new).
-    { intros f new. destruct (save_one_cases w f new) as [Hp' [_ [C|[F _]]]].
-      - cbn zeta. rewrite Hp', Hp. split; [reflexivity|]. split; [apply (cs_saved _ _ _ _ C)|].
-        split; [apply (cs_st _ _ _ _ C)|apply (cs_trace _ _ _ _ C)].
-      - destruct (fa_plan _ _ _ _ F) as [k [fl [Hk _]]]. rewrite Hp in Hk. discriminate. }
+              w_plan w1 = None /\ w_saved w1 = save_succeeds (w_st w) f /\
+              w_st w1 = exec (save_ops (w_st w) f new) (w_st w) /\
+              map fst (w_trace w1) = map fst (w_trace w) ++ save_ops (w_st w) f new).
+    { intros f new. destruct (save_one_cases w f new) as [Hp' [_ [U|F]]].
+      - cbn zeta. rewrite Hp', Hp. split; [reflexivity|]. split; [apply (us_saved _ _ _ _ U)|].
+        split; [apply (us_st _ _ _ _ U)|apply (us_trace _ _ _ _ U)].
+      - destruct (fa_plan _ _ _ F) as [k [fl [Hk _]]]. rewrite Hp in Hk. discriminate. }
     destruct a as [f new|f m|b f new]; cbn [run_action prog_ops_from].
     + destruct (Hsave f new) as [H1 [H2 [H3 H4]]]. destruct (IH _ H1) as [I1 [I2 I3]].
       cbn zeta. rewrite I1, I2, H2, H3, H4, exec_app, <- app_assoc. auto.
@@ -440,8 +602,8 @@ Proof.
         destruct (snd (step (w_st w) (Chmod f (N.ldiff m 73))));
           cbn [tech_error w_st w_count w_plan w_trace w_stderr w_saved]; rewrite map_app; auto. }
       destruct Hc as [H1 [H2 [H3 H4]]]. destruct (IH _ H1) as [I1 [I2 I3]].
-      cbn zeta. rewrite I1, I2, H2, H3, H4. change (Chmod f (N.ldiff m 73) :: prog_ops_from (w_saved w) prog)
-        with ([Chmod f (N.ldiff m 73)] ++ prog_ops_from (w_saved w) prog).
+      cbn zeta. rewrite I1, I2, H2, H3, H4.
+      change (Chmod f (N.ldiff m 73) :: ?r) with ([Chmod f (N.ldiff m 73)] ++ r).
       rewrite exec_app, <- app_assoc. auto.
     + destruct (Bool.eqb (w_saved w) b).
       * destruct (Hsave f new) as [H1 [H2 [H3 H4]]]. destruct (IH _ H1) as [I1 [I2 I3]].
@@ -451,7 +613,7 @@ Qed.
 
 Theorem run_is_prog_ops : forall (s : state) (prog : list action),
   let w := run prog (init_world s None) in
-  w_st w = exec (prog_ops prog) s /\ map fst (w_trace w) = prog_ops prog.
+  w_st w = exec (prog_ops s prog) s /\ map fst (w_trace w) = prog_ops s prog.
 Proof.
   intros s prog. destruct (run_nofault prog (init_world s None) eq_refl) as [H1 [H2 _]].
   cbn zeta. split; [exact H1|exact H2].
